@@ -8,6 +8,28 @@ from runner import CheckError, GOENV
 BATCH = 16
 
 
+IMPORT_STYLES = ["dot", "dot", "default", "renamed", "dot+seq", "default+seq-renamed"]
+
+
+def import_style(pid, body):
+    """every way of importing the API: dot import, default name, renamed, and files that already
+    import the seq package themselves (under its own or another name)"""
+    import zlib
+    style = IMPORT_STYLES[zlib.crc32(pid.encode()) % len(IMPORT_STYLES)]
+    q = {"dot": "", "dot+seq": "", "default": "co.", "renamed": "gen.", "default+seq-renamed": "co."}[style]
+    if q:
+        body = re.sub(r"\bYieldFrom\(", q + "YieldFrom(", body)
+        body = re.sub(r"\bYield\(", q + "Yield(", body)
+        body = re.sub(r"\bIter\[", q + "Iter[", body)
+    imp = {"dot": '\t. "github.com/goghcrow/go-co"\n',
+           "default": '\t"github.com/goghcrow/go-co"\n',
+           "renamed": '\tgen "github.com/goghcrow/go-co"\n',
+           "dot+seq": '\t. "github.com/goghcrow/go-co"\n\t"github.com/goghcrow/go-co/seq"\n',
+           "default+seq-renamed": '\t"github.com/goghcrow/go-co"\n\tsq "github.com/goghcrow/go-co/seq"\n'}[style]
+    extra = {"dot+seq": "var _ = seq.Normal[int]\n", "default+seq-renamed": "var _ = sq.Normal[int]\n"}.get(style, "")
+    return "package corp\n\nimport (\n" + imp + "\trt \"verifws/verifrt\"\n)\n\nvar _ = rt.Emit\nvar _ " + q + "Iter[int]\n" + extra + "\n" + body
+
+
 class Corpus:
     def __init__(self, ctx, fam):
         self.ctx = ctx
@@ -56,8 +78,7 @@ class Corpus:
             f.write(gen.HEADER % {"pkg": "corp"})
         for p in ps:
             with open(os.path.join(sd, "gen_%s.go" % p.pid), "w") as f:
-                f.write("package corp\n\nimport (\n\t. \"github.com/goghcrow/go-co\"\n\trt \"verifws/verifrt\"\n)\n\nvar _ = rt.Emit\nvar _ Iter[int]\n\n")
-                f.write(p.source(K, extra_adv, nlo, nhi))
+                f.write(import_style(p.pid, p.source(K, extra_adv, nlo, nhi)))
             self.where[p.pid] = d
 
     # -- compiling -------------------------------------------------------------------------
